@@ -610,6 +610,9 @@ def run(ctx):
     res.notes.append("Frame.__eq__ compares the lazily cached _message/_data: a frame whose .bytes/.data was read is unequal to a "
                      "fresh frame built from the same arguments (modelled by PyFrame.fillMessage/fillData, theorem pyEq_fill_fresh); "
                      "count in input_distribution['eq:same-args-unequal-after-one-sided-fill …']")
+    import reuse
+    reuse.frame_reuse(res, random.Random(ctx["seed"] * 31 + 303), 600 if tier == "quick" else 20000)
+    res.notes.append("object re-use: a frame that was serialised, updated through its setters and serialised again must equal a fresh frame built from the final content (bytes, length field, len())")
     order_failures(res)
     return res
 
